@@ -708,8 +708,11 @@ fn run_producer(sh: &Shared, tid: usize, first: TxH, first_id: u32) {
         o
       }
       POp::Clone => {
-        // cloning a handle that was itself closed has no specified meaning: not generated
-        if slot.closed {
+        // What a clone of a close()d handle may be used for is not specified, but it is a sender handle like any
+        // other for the disconnect protocol: it is made and dropped at once, and the end of the scenario still has
+        // to be "every sender handle gone => receivers drain and see Disconnected".
+        let of_closed = slot.closed;
+        if of_closed && !rng.chance(1, 2) {
           continue;
         }
         let new_id = sh.next_handle.fetch_add(1, Ordering::SeqCst);
@@ -724,7 +727,7 @@ fn run_producer(sh: &Shared, tid: usize, first: TxH, first_id: u32) {
         let ok = c.is_some();
         log.end(idx, |e| e.out = if ok { Out::Ok } else { Out::Empty });
         if let Some(c) = c {
-          if slots.len() < 4 {
+          if slots.len() < 4 && !of_closed {
             slots.push(TxSlot { id: new_id, h: Some(c), seq: 0, closed: false, after_close_ops: 0 });
           } else {
             let mut tmp = TxSlot { id: new_id, h: Some(c), seq: 0, closed: false, after_close_ops: 0 };
